@@ -28,6 +28,7 @@ func c08Final(w *World) {
 func init() {
 	finals["C08"] = c08Final
 	ops["child"] = opChild
+	ops["prf_d_use"] = opPrfDUse
 	props["C08"] = &PropDef{
 		ID: "C08", Level: "exploration",
 		Gen:   genC08,
@@ -141,6 +142,17 @@ func opChild(w *World, s *Step) (string, string) {
 	obj := sa.Obj[side(sd)]
 	// the caller keeps ONE slice holding Ni|Nr and hands it to every derivation that needs it
 	callerNonce := clone(s.Nonce)
+	if s.InPlace {
+		buf, _ := w.ext["child_nonce_buf"].([]byte)
+		if buf == nil {
+			buf = make([]byte, 1100)
+			w.ext["child_nonce_buf"] = buf
+		}
+		if len(s.Nonce) <= len(buf) {
+			callerNonce = buf[:copy(buf, s.Nonce)]
+			w.stats.inc("child_nonce_buffer_refilled_in_place")
+		}
+	}
 	w.ext["child_nonce_arg"] = callerNonce
 	got, res := deriveChild(s, obj, callerNonce)
 	uses, _ := w.ext[fmt.Sprintf("uses%d%s", s.SA, sd)].(int)
@@ -155,6 +167,46 @@ func opChild(w *World, s *Step) (string, string) {
 		c17Child(w, s, sa, got, res)
 	}
 	return obs, abs
+}
+
+// opPrfDUse: the application uses the SA's exported SK_d-keyed PRF object itself, the way hash.Hash is
+// used (Reset, Write, Sum) - e.g. SKEYSEED = prf(SK_d(old), g^ir(new) | Ni | Nr) for an IKE SA rekey
+// (RFC 7296 §2.18). Sum does not reset, so the object is left with data absorbed. The value must be the
+// reference prf(SK_d, data), and the next Child SA derivation must not care.
+func opPrfDUse(w *World, s *Step) (string, string) {
+	sa := w.sa(s.SA)
+	if sa == nil {
+		return "nosa", "nosa"
+	}
+	sd := s.Side
+	if sd == "" {
+		sd = "I"
+	}
+	obj := sa.Obj[side(sd)]
+	res := &callResult{}
+	var out []byte
+	guard(res, func() {
+		if obj.Prf_d == nil {
+			res.Err = fmt.Errorf("no Prf_d")
+			return
+		}
+		obj.Prf_d.Reset()
+		for i := 0; i < len(s.Data); i += 37 { // several writes
+			e := i + 37
+			if e > len(s.Data) {
+				e = len(s.Data)
+			}
+			obj.Prf_d.Write(s.Data[i:e])
+		}
+		out = obj.Prf_d.Sum(nil)
+	})
+	w.stats.inc("prf_d_used_by_application")
+	if w.prop == "C08" && res.class() == "ok" {
+		if want := sa.Suite.refPrf().Sum(sa.Keys.SKd, s.Data); !bytes.Equal(out, want) {
+			w.violate("prf_d_not_keyed_with_sk_d", sa.Suite.Prf, "application use of Prf_d after %d operations: prf(SK_d, data) = %x, reference = %x", w.step, out, want)
+		}
+	}
+	return fmt.Sprintf("%s:%x", res.class(), fnv1a(0, out)), "prf_d_use:" + res.class()
 }
 
 func c08Check(w *World, s *Step, sa *SA, got *childKeys, res *callResult, uses int) {
@@ -278,12 +330,26 @@ func genC08(r *Rng, idx int, tier string) *Scenario {
 	next := 0
 	var sent []int
 	var lastNonce Hex
+	var lastCS Step
+	inplace := r.Chance(1, 3)
 	for i := 0; i < n; i++ {
 		cs := genChildStep(r, 0)
 		if i > 0 && r.Chance(1, 4) {
 			cs.Nonce = lastNonce // the same Ni|Nr again (another Child SA of the same exchange, or a retry)
 		}
-		lastNonce = cs.Nonce
+		if inplace {
+			cs.InPlace = r.Chance(3, 4)
+			if cs.InPlace && i > 0 && len(lastNonce) > 0 && r.Bool() {
+				cs.Nonce = r.Bytes(len(lastNonce)) // the next exchange's nonces, same sizes, same buffer
+				if r.Bool() {
+					cs.ChildEncr, cs.ChildInteg, cs.ViaProp = lastCS.ChildEncr, lastCS.ChildInteg, lastCS.ViaProp
+				}
+			}
+		}
+		if r.Chance(1, 12) {
+			sc.Steps = append(sc.Steps, Step{Op: "prf_d_use", SA: 0, Side: cs.Side, Data: r.Bytes(r.Range(0, 300))})
+		}
+		lastNonce, lastCS = cs.Nonce, cs
 		sc.Steps = append(sc.Steps, cs)
 		for k := 0; k < mix; k++ {
 			if r.Bool() {
